@@ -91,5 +91,21 @@ CLAIMS["C15"] = {
     "technique": "specialisation of the file filter over segment lists + forward slice of the flag",
     "ref": "DESIGN.md section 5 C15",
 }
+CLAIMS["C02"] = {
+    "text": "Decides, for every name, value and docstring text a package can contain, the structural conditions of syntactic "
+            "validity: the escaper back-quotes each of the 33 Safe-DS keywords; every hole of every output template of "
+            "every emitter (obtained by abstract interpretation: all paths, loops summarised as repetitions) is "
+            "classified by provenance, and every identifier hole ends in the keyword escaper (package paths segment by "
+            "segment), comes from the generated param_/result_ alphabet, or sits inside a documentation comment; text "
+            "holes in comments and values between double quotes need a sanitiser (today five such holes have none: "
+            "listed known findings with runtime witnesses); the delimiter effect of every template is neutral on its "
+            "path with repeated parts neutral (so brackets, braces, comments, strings close for any number of members); "
+            "module headers have the shape [doc][annotation] package, imports, body; TODO lines end in a line break. "
+            "It does not parse concrete stubs; semantic validity and layout are not decided.",
+    "note": TRUST + "A hole whose provenance the classifier does not recognise is reported (fail-closed), so an unusual but "
+            "correct new emission idiom needs the classifier to be extended.",
+    "technique": "taint/provenance of template holes + delimiter-effect abstract interpretation of emitters",
+    "ref": "DESIGN.md section 5 C02",
+}
 
 NOT_APPLICABLE = {}
